@@ -96,8 +96,14 @@ def loss_case(draw, kinds=KINDS, weights=True, target_param="subset-ordered", ta
     # container / dtype forms in which a user may legitimately hand over the same numbers
     forms = {"t": draw(st.sampled_from(["float_array", "float_array", "list", "int_array", "int_list"])),
              "y": draw(st.sampled_from(["float_array", "float_array", "list", "int_array"])),
-             "x0": draw(st.sampled_from(["list", "list", "array", "tuple"])),
-             "theta": draw(st.sampled_from(["list", "list", "array"]))}
+             "x0": draw(st.sampled_from(["list", "list", "array", "tuple", "int_list", "int_array"])),
+             "theta": draw(st.sampled_from(["list", "list", "array", "int_list", "int_array"]))}
+    if forms["x0"].startswith("int"):
+        # whole-number initial populations handed over as Python ints / an integer typed array
+        if all(v >= 1.5 for v in su["x0"]):
+            su = dict(su, x0=[float(round(v)) for v in su["x0"]])
+        else:
+            forms["x0"] = "list"
     if forms["t"].startswith("int"):
         # observation times that are whole numbers (day numbers) while the initial time may be fractional
         t0 = draw(st.sampled_from([su["t0"], su["t0"], 0.5, 2.5]))
@@ -240,8 +246,13 @@ def build(case, y):
         x0_arg = np.array(su["x0"], float)
     elif xf == "tuple":
         x0_arg = tuple(su["x0"])
+    elif xf in ("int_list", "int_array") and all(v == int(v) for v in su["x0"]):
+        x0_arg = [int(v) for v in su["x0"]] if xf == "int_list" else np.array([int(v) for v in su["x0"]])
     if forms.get("theta") == "array":
         th_arg = np.array(theta0, float)
+    elif forms.get("theta") in ("int_list", "int_array"):
+        # the construction-time guess is only a starting value (every evaluation passes theta explicitly): whole numbers
+        th_arg = [1] * len(theta0) if forms["theta"] == "int_list" else np.ones(len(theta0), dtype=int)
     obj = cls(th_arg, model, x0_arg, su["t0"], t_arg, y_arg, state_name, **kw)
     return model, obj
 
